@@ -49,7 +49,7 @@ def run(chk):
     chk.cov["distinct_nontrivial"] = len(nontriv)
     for k in ("ok", "incomplete", "notvalid"):
         if outs.get(k, 0) < 20:
-            raise ToolError("vacuity: only %d '%s' outcomes recorded" % (outs.get(k, 0), k))
+            chk.vacuity("vacuity: only %d '%s' outcomes recorded" % (outs.get(k, 0), k))
     chk.assumptions += ["TLC + CommunityModules (Bitwise, Json, IOUtils) are correct",
                         "harness pointer arithmetic reports (offset,len) of returned slices faithfully"]
     return chk.finish("model_checking", RULE, extra={"outcomes": outs})
